@@ -34,3 +34,11 @@ claim("C13", "round-trip monitor with a randomising reference escaper; untermina
       "Texts over quotes, backslashes, controls, all line-break forms, multi-byte and invalid UTF-8 are escaped by a reference escaper that picks among all equivalent escape forms, then evaluated by the real code: the result must equal the text byte for byte in both quote styles; literals left open at end of input or at any line-break form must be rejected, alone and embedded.",
       "Trusts the 50-line escaper as the meaning of the escape forms; line continuations, surrogate escapes and short \\\\x/\\\\u forms are not generated.",
       "5/C13")
+claim("C06", "reference-model monitor: truthiness table + selection semantics over an exhaustive operand grid, effect recorders for single-branch evaluation",
+      "Every operator is applied to every (pair of) 41 operand values (literals and data: nulls, typed nil, booleans, zeros in all spellings, -0, NaN, infinities, strings, arrays, maps, times, functions, structs) at depth 1 and in random nestings to depth 3; the result must be the operand the table selects, handed back representation-exactly (decimals keep coefficient and exponent, data containers keep identity); conditionals with recording calls and assignments in their leaves must leave a trace of the selected leaf only.",
+      "Trusts the 41-row truthiness table as my reading of the statement; eager evaluation of the right operand of && || ?? is allowed.",
+      "5/C06")
+claim("C16", "reference-model monitor: lookup model navigating the same Go data in parallel with the evaluated path",
+      "Generated data maps (nested and typed maps incl. zero-valued entries, structs, nil / typed-nil entries, every scalar kind, keys colliding with builtins) are read through dotted paths of depth 0-4 with '.' and '!.' at every position, with and without a data map; null-safety, the assert form, missing-field errors, number normalisation (exact), identity of containers/functions/decimals and equality of nulls to null are compared with the model.",
+      "Trusts the 40-line navigation model; member access on kinds the statement does not name is skipped and counted.",
+      "5/C16")
